@@ -1,5 +1,9 @@
 //! Reference oracles: independent re-derivations of the cited definitions, ordered containers only.
 pub mod dist;
+pub mod reach;
+pub mod cluster;
+pub mod modularity;
+pub mod eigen;
 
 /// quotients and sums of quotients: |a-b| <= 1e-9 * max(1,|a|,|b|); NaN equals NaN; inf equals inf
 pub fn close(a: f64, b: f64) -> bool {
